@@ -61,6 +61,26 @@ def main():
             fails.append(("bounce:report-text-lost", obj, len(rep)))
         if impl != m:
             mism.append(obj)
+    # ---- the recipient named is the ORIGINAL address: route an address with the real rewrite(), bounce the routed form,
+    #      and the notice must show the address as it was before the virtual-domain tag was prepended
+    from send_common import USERS, DOMS
+    rt = []
+    for ci in range(40 if ck.thorough else 12):
+        c = gen_ctl(rng); h.write_ctl(c); assert h.cmd("ctl") == "ok"
+        for _ in range(10):
+            a = rng.choice(USERS) + b"@" + rng.choice(DOMS)
+            rw = h.cmd("rw " + vlib.hx(a))
+            if not rw.startswith("L "): continue
+            routed = vlib.unhx(rw.split()[1])
+            if not routed.endswith(a) or routed == a: continue          # not a virtual-domain rewrite of this very address
+            t = vlib.unhx(h.cmd("bounce %s %s" % (vlib.hx(routed), vlib.hx(b"failed"))))
+            ck.evaluated(); ck.count("bounce_names_original"); ck.nontrivial(("orig", c["vdoms"], a))
+            if not t.startswith(b"<" + a + b">:\n"):
+                keys = [l.split(b":")[0].strip().lower() for l in c["vdoms"].split(b"\n") if b":" in l and not l.startswith(b"#")]
+                full = a.lower() in keys
+                fails.append(("bounce:full-address-vdom-prefix-kept" if full else "bounce:wrong-recipient-shown",
+                              dict(kind="configuration", virtualdomains=c["vdoms"].decode("latin1"), locals=c["locals"].decode("latin1"), address=a.decode("latin1"),
+                                   routed_as=routed.decode("latin1"), notice_head=t[:80].decode("latin1")), len(a)))
     # n recipients -> n paragraphs
     for k in range(0, len(cases) - 5, 5):
         grp = cases[k:k + 5]
@@ -134,7 +154,8 @@ def main():
         if key in seen:
             continue
         seen.add(key)
-        ck.violation(key, obj, what="real %s: %s" % (obj["fn"], key))
+        ck.violation(key, obj, what="real %s: %s" % (obj.get("fn", "qmail-send"), key))
+    fails = [f for f in fails if f[0] not in ck.known]
     if mism and not fails:
         ck.violation("correspondence", dict(kind="correspondence", broken="Send/Route.v addbounce_text/stripvdomprepend/bounce_plan = qmail-send.c", first=mism[0], n=len(mism)),
                      nofail=True, what="model and implementation disagree but the direct oracles hold")
